@@ -81,7 +81,20 @@ def owner_of(step) -> str:
 class Fail:
     def __init__(self, prop, clause, msg, key=None):
         self.prop, self.clause, self.msg = prop, clause, msg
-        self.key = dict(key or {}, clause=clause)
+        def plain(v):
+            if isinstance(v, (str, type(None))):
+                return v
+            if hasattr(v, "item"):
+                v = v.item()
+            if isinstance(v, bool):
+                return bool(v)
+            if isinstance(v, int):
+                return int(v)
+            if isinstance(v, float):
+                return float(v)
+            return str(v)
+
+        self.key = {k: plain(v) for k, v in dict(key or {}, clause=clause).items()}
 
     def __repr__(self):
         return f"{self.prop}/{self.clause}: {self.msg}"
